@@ -721,7 +721,17 @@ func (c *Concretizer) buildRequest(o *ROp, variant int) ([]byte, int) {
 
 	switch o.Wf {
 	case "extrahdr":
-		headers["typ"] = "JWT"
+		// (a registered header name, or one that nobody has registered)
+		switch o.way(4) {
+		case 0:
+			headers["typ"] = "JWT"
+		case 1:
+			headers["extra"] = "x"
+		case 2:
+			headers["nonce"] = "AAAA"
+		case 3:
+			headers["anchorOrigin"] = "https://origin.example/"
+		}
 	case "extrahdr_b64true":
 		headers["b64"] = true
 	case "extrahdr_b64false":
@@ -781,6 +791,14 @@ func (c *Concretizer) buildRequest(o *ROp, variant int) ([]byte, int) {
 		tv := variant
 		if variant == 0 && o.Sig == "hdr_changed" {
 			tv = o.way(5) // (without expansion: the shapes of a changed header by rotation)
+		}
+
+		if variant == 0 && o.Sig == "pad" {
+			tv = o.way(5)
+		}
+
+		if variant == 0 && o.Sig == "payload_field" {
+			tv = o.way(40) // (any of the field changes / re-encodings)
 		}
 
 		signedData, nVariants = tamperJWS(signedData, o.Sig, tv)
@@ -920,8 +938,9 @@ func tamperJWS(sd, kind string, variant int) (string, int) {
 
 		sortStrings(names)
 
-		// every field re-encoded with another value, plus a field added, plus a field dropped
-		n := 2*len(names) + 1
+		// every field re-encoded with another value, plus a field added, plus a field dropped, plus the SAME fields in other
+		// bytes (white space, members in descending order, a member repeated, an escaped letter): the signature is over bytes
+		n := 2*len(names) + 5
 		v := variant % n
 
 		switch {
@@ -929,8 +948,43 @@ func tamperJWS(sd, kind string, variant int) (string, int) {
 			m[names[v]] = alterValue(m[names[v]])
 		case v < 2*len(names):
 			delete(m, names[v-len(names)])
-		default:
+		case v == 2*len(names):
 			m["extra"] = "x"
+		case v == 2*len(names)+1:
+			var buf bytes.Buffer
+
+			_ = json.Indent(&buf, payload, "", " ")
+
+			return join(parts[0], b64(buf.Bytes()), parts[2]), n
+		case v == 2*len(names)+2:
+			// (members in descending order)
+			var sb strings.Builder
+
+			sb.WriteString("{")
+
+			for i := len(names) - 1; i >= 0; i-- {
+				sb.WriteString(fmt.Sprintf("%q:%s", names[i], refJCSSimple(m[names[i]])))
+
+				if i > 0 {
+					sb.WriteString(",")
+				}
+			}
+
+			sb.WriteString("}")
+
+			return join(parts[0], b64([]byte(sb.String())), parts[2]), n
+		case v == 2*len(names)+3:
+			// (the first member once more at the end, with the same value)
+			if len(names) > 0 && len(payload) > 2 {
+				dup := fmt.Sprintf(",%q:%s}", names[0], refJCSSimple(m[names[0]]))
+				return join(parts[0], b64(append(append([]byte(nil), payload[:len(payload)-1]...), dup...)), parts[2]), n
+			}
+		default:
+			// (the first letter of the first member name written as an escape)
+			if len(names) > 0 && len(names[0]) > 0 {
+				esc := strings.Replace(string(payload), `"`+names[0]+`"`, fmt.Sprintf(`"\\u%04x%s"`, names[0][0], names[0][1:]), 1)
+				return join(parts[0], b64([]byte(esc)), parts[2]), n
+			}
 		}
 
 		return join(parts[0], b64(refJCSSimple(m)), parts[2]), n
